@@ -10,7 +10,7 @@ class C03(KernelProp):
     n_ops = (10, 40)
     weights = {"new": 6, "cancelget": 1, "enter": 8, "exit": 4, "add": 26, "addf": 12, "getnw": 14, "get": 8, "finish": 3,
                "getall": 14, "addtd": 2, "current": 0, "parent": 0, "spawn": 1, "state": 1}
-    gen_kwargs = {"max_ctx": 5, "malformed": 0.2, "wrong_state": 0.1, "exc_end": 0.2}
+    gen_kwargs = {"max_ctx": 5, "malformed": 0.2, "wrong_state": 0.1, "exc_end": 0.2, "p_comp": 0.25}
     rule = ("adds, factory registrations and lookups in few contexts over 4 types x 3 names so that pairs collide: single "
             "and multi-type adds conflicting on the 1st/2nd/3rd type, the malformed stream (invalid names, None value, "
             "non-type in types, non-callable teardown callback, wrong lifecycle state), static/factory/generated "
